@@ -11,8 +11,9 @@ import (
 //
 // case:        (period (op ...))     op = (0 es) AddElementaryStream  (1 pid) RemoveElementaryStream  (2 pid) SetPCRPID
 //                                         (3) WriteTables  (4 muxerdata) WriteData  (5 packet) WritePacket
-// observation: per call (code n bytes state): code -1 ok / error code / -2 panic; n the returned int; bytes what the
-//              writer accepted during the call; state = VerifState() after the call (see coq/Extract/RunMux.v).
+// observation: per call (code n bytes state writes): code -1 ok / error code / -2 panic; n the returned int; bytes what the
+//              writer accepted during the call; state = VerifState() after the call (see coq/Extract/RunMux.v); writes = the
+//              length of every io.Writer.Write call of the call, in order (the structure C18 injects failures into).
 
 const (
 	opAdd = iota
@@ -87,6 +88,7 @@ type muxCall struct {
 	n     int
 	bytes []byte
 	st    astits.VerifMuxerState
+	lens  []int // length of every io.Writer.Write call made during the call
 }
 
 // runMux runs a history on a fresh Muxer writing into a sinkWriter that never fails.
@@ -96,6 +98,7 @@ func runMux(period int, ops []muxOp) []muxCall {
 	calls := make([]muxCall, 0, len(ops))
 	for _, o := range ops {
 		before := len(w.accepted)
+		callsBefore := len(w.lens)
 		c := muxCall{}
 		func() {
 			defer func() {
@@ -121,6 +124,7 @@ func runMux(period int, ops []muxOp) []muxCall {
 			c.code = errCode(err)
 		}()
 		c.bytes = append([]byte{}, w.accepted[before:]...)
+		c.lens = append([]int{}, w.lens[callsBefore:]...)
 		c.st = m.VerifState()
 		calls = append(calls, c)
 	}
@@ -151,7 +155,7 @@ func muxStateTok(s astits.VerifMuxerState) Tok {
 func muxObservation(calls []muxCall) Tok {
 	ts := make([]Tok, len(calls))
 	for i, c := range calls {
-		ts[i] = L(I(c.code), I(int64(c.n)), B(c.bytes), muxStateTok(c.st))
+		ts[i] = L(I(c.code), I(int64(c.n)), B(c.bytes), muxStateTok(c.st), intsTok(c.lens))
 	}
 	return L(ts...)
 }
@@ -430,6 +434,129 @@ func (g *muxGen) setPCR(valid bool) {
 
 func (g *muxGen) tables() { g.ops = append(g.ops, muxOp{kind: opTables}) }
 
+func (g *muxGen) drop(pid uint16) {
+	g.ops = append(g.ops, muxOp{kind: opRemove, pid: pid})
+	for i, p := range g.pids {
+		if p == pid {
+			g.pids = append(g.pids[:i:i], g.pids[i+1:]...)
+			break
+		}
+	}
+}
+
+// reAdd: data on a PID, removal, the same PID added again (explicitly, or by automatic assignment when it is the one
+// nextPID stands on), data again: the continuity counter carries on.
+func (g *muxGen) reAdd() {
+	r := g.r
+	var pid uint16
+	auto := false
+	if !g.has(g.next) && g.next != 0x1000 && r.Bool() {
+		// an explicit stream on the PID automatic assignment will hand out next
+		pid, auto = g.next, true
+		g.ops = append(g.ops, muxOp{kind: opAdd, es: g.stream(pid, 10)})
+		g.pids = append(g.pids, pid)
+	} else if p, ok := g.anyPID(); ok {
+		pid = p
+	} else {
+		g.addExplicit(10)
+		pid = g.pids[0]
+	}
+	for i := r.Range(1, 3); i > 0; i-- {
+		g.data(pid, nil, r.Range(1, 900))
+	}
+	g.drop(pid)
+	if r.Chance(1, 3) {
+		g.data(pid, nil, r.Range(1, 300)) // rejected: the PID is gone
+	}
+	if r.Chance(1, 3) {
+		if q, ok := g.anyPID(); ok {
+			g.data(q, nil, r.Range(1, 300))
+		}
+	}
+	if auto && g.next == pid {
+		g.addAuto(10)
+	} else {
+		g.ops = append(g.ops, muxOp{kind: opAdd, es: g.stream(pid, 10)})
+		g.pids = append(g.pids, pid)
+	}
+	if !g.has(g.pcr) {
+		g.setPCR(true)
+	}
+	for i := r.Range(1, 3); i > 0; i-- {
+		g.data(pid, nil, r.Range(1, 900))
+	}
+}
+
+// muxReAddHistory: several remove / add-again rounds on a few PIDs.
+func muxReAddHistory(r *Rng, tier string) (int, []muxOp) {
+	g := newMuxGen(r, tier)
+	period := r.Range(1, 20)
+	for i := r.Range(1, 3); i > 0; i-- {
+		if r.Bool() {
+			g.addExplicit(10)
+		} else {
+			g.addAuto(10)
+		}
+	}
+	g.setPCR(true)
+	for i := r.Range(2, 6); i > 0; i-- {
+		g.reAdd()
+		if r.Chance(1, 4) {
+			g.tables()
+		}
+	}
+	return period, g.ops
+}
+
+// muxReAddAfterMany: data on a PID, removal, then n other streams added and removed (explicit and automatic PIDs,
+// some with data in between), then the first PID added again and written: its counter carries on however many other
+// removals lie in between (n around powers of two: a bounded memory of removed counters would forget it).
+func muxReAddAfterMany(r *Rng, tier string, n int) (int, []muxOp) {
+	g := newMuxGen(r, tier)
+	g.addExplicit(0)
+	pid := g.pids[0]
+	g.setPCR(true)
+	for i := r.Range(1, 3); i > 0; i-- {
+		g.data(pid, nil, r.Range(1, 600))
+	}
+	keep := uint16(0)
+	if r.Bool() {
+		g.addExplicit(0)
+		keep = g.pids[len(g.pids)-1]
+		g.ops = append(g.ops, muxOp{kind: opSetPCR, pid: keep})
+		g.pcr = keep
+	}
+	g.drop(pid)
+	for i := 0; i < n; i++ {
+		if r.Bool() {
+			g.addExplicit(0)
+		} else {
+			g.addAuto(0)
+		}
+		q := g.pids[len(g.pids)-1]
+		if q == pid { // automatic assignment handed out the PID under test: that is a re-addition, keep it out
+			g.drop(q)
+			continue
+		}
+		if r.Chance(1, 8) {
+			if keep == 0 {
+				g.ops = append(g.ops, muxOp{kind: opSetPCR, pid: q})
+			}
+			g.data(q, nil, r.Range(1, 200))
+		}
+		g.drop(q)
+	}
+	g.ops = append(g.ops, muxOp{kind: opAdd, es: g.stream(pid, 0)})
+	g.pids = append(g.pids, pid)
+	if !g.has(g.pcr) {
+		g.setPCR(true)
+	}
+	for i := r.Range(1, 3); i > 0; i-- {
+		g.data(pid, nil, r.Range(1, 600))
+	}
+	return r.Range(1, 50), g.ops
+}
+
 // muxPayloadSize draws from {1, 2, k*184-d, 65520..65560, random}.
 func (g *muxGen) payloadSize() int {
 	r := g.r
@@ -629,6 +756,8 @@ func muxHistory(r *Rng, tier string, n int) (int, []muxOp) {
 			g.addAuto(30)
 		case k < 80:
 			g.addDuplicate()
+		case k < 83:
+			g.reAdd()
 		case k < 86:
 			g.remove(r.Chance(4, 5))
 		case k < 93:
@@ -780,6 +909,65 @@ func muxPMTBody(r *Rng, tier string, target int) (int, []muxOp) {
 	return r.Range(1, 3), g.ops
 }
 
+// muxPMTCapacity: tables are emitted, then streams are added until the PMT body (4 + sum of 5 + descriptors) is
+// exactly target bytes — 171 is the largest body that fits the single packet the muxer writes a PMT into — then k
+// calls that need the tables (they fail when the body is too large), then a stream is removed and the tables are
+// written again: version numbers must have moved by exactly one per content change, however many attempts failed.
+func muxPMTCapacity(r *Rng, tier string, target int) (int, []muxOp) {
+	g := newMuxGen(r, tier)
+	g.addExplicit(0)
+	g.setPCR(true)
+	first := g.pids[0]
+	g.tables()
+	g.data(first, nil, r.Range(1, 300))
+	rest := target - 4 - 5
+	for rest >= 5 {
+		n := 5
+		switch {
+		case rest >= 12 && r.Chance(1, 3):
+			n = 5 + r.Range(2, 7)
+		case rest < 10:
+			n = rest
+		}
+		if rest-n > 0 && rest-n < 5 {
+			n = rest
+		}
+		if n == 6 {
+			n = 5
+			if rest == 6 {
+				break
+			}
+		}
+		if r.Bool() {
+			g.addAuto(0)
+		} else {
+			g.addExplicit(0)
+		}
+		g.ops[len(g.ops)-1].es.ElementaryStreamDescriptors = descsOfSize(r, n-5)
+		rest -= n
+		if rest == 6 {
+			break
+		}
+	}
+	for k := r.Range(1, 34); k > 0; k-- {
+		if r.Bool() {
+			g.tables()
+		} else {
+			g.data(first, g.firstAF(0, 1), r.Range(1, 300))
+		}
+	}
+	for i := r.Range(1, 2); i > 0 && len(g.pids) > 1; i-- {
+		g.remove(true)
+	}
+	if !g.has(g.pcr) {
+		g.setPCR(true)
+	}
+	g.tables()
+	pid, _ := g.anyPID()
+	g.data(pid, nil, r.Range(1, 300))
+	return r.Range(1, 3), g.ops
+}
+
 // muxManyPackets: more than 16 packets per PID in several calls, interleaved over PIDs, with failing calls in between.
 func muxManyPackets(r *Rng, tier string) (int, []muxOp) {
 	g := newMuxGen(r, tier)
@@ -879,8 +1067,23 @@ func muxAutoSweep(r *Rng, tier string, target int) (int, []muxOp) {
 			g.remove(true)
 		}
 	}
+	// keep the streams next to the PMT PID (those the sweep just passed), write a unit on every stream left
+	near := func(pid uint16) bool { return pid&0xfff <= 8 || pid&0xfff >= 0xff8 }
+	for i := 0; i < len(g.pids) && len(g.pids) > 20; {
+		if near(g.pids[i]) {
+			i++
+			continue
+		}
+		g.drop(g.pids[i])
+	}
+	for len(g.pids) > 20 {
+		g.remove(true)
+	}
 	g.setPCR(true)
 	g.tables()
+	for _, pid := range append([]uint16{}, g.pids...) {
+		g.data(pid, nil, 100)
+	}
 	for len(g.pids) > 6 {
 		g.remove(true)
 	}
@@ -955,10 +1158,10 @@ func muxExhaustive(r *Rng, length int, emit func(string, Tok)) {
 
 // muxGenAll is the generator mix shared by the three properties; the weights differ per property.
 type muxMix struct {
-	random, wrap, bigPMT, many, ood int
-	maxLen                          int
-	exhaustive                      int
-	sweep                           int // automatic additions of the nextPID sweep (0: none)
+	random, wrap, bigPMT, many, ood, readd int
+	maxLen                                 int
+	exhaustive                             int
+	sweep                                  int // automatic additions of the nextPID sweep (0: none)
 }
 
 func muxGenAll(r *Rng, tier string, m muxMix, emit func(string, Tok)) {
@@ -992,6 +1195,22 @@ func muxGenAll(r *Rng, tier string, m muxMix, emit func(string, Tok)) {
 		}
 		p, ops := muxPMTBody(r, tier, target)
 		emit("pmt-body-overflow", muxCaseTok(p, ops))
+	}
+	for i := 0; i < m.bigPMT/2+1; i++ {
+		p, ops := muxPMTCapacity(r, tier, []int{171, 172, 172, 173, 170, 177, 184}[i%7])
+		emit("pmt-capacity", muxCaseTok(p, ops))
+	}
+	for i := 0; i < m.readd; i++ {
+		p, ops := muxReAddHistory(r, tier)
+		emit("remove-add-again", muxCaseTok(p, ops))
+	}
+	for i := 0; i < m.readd/8+1; i++ {
+		ns := []int{64, 256, 65, 257, 16, 32, 128, 512, 1024}
+		if tier == "thorough" {
+			ns = append(ns, 2048, 4096, 8192)
+		}
+		p, ops := muxReAddAfterMany(r, tier, ns[i%len(ns)]+r.Intn(3))
+		emit("add-again-after-many-removals", muxCaseTok(p, ops))
 	}
 	for i := 0; i < m.many; i++ {
 		p, ops := muxManyPackets(r, tier)
